@@ -172,7 +172,7 @@ func keysOf(m map[string]bool) []string {
 func runC06(tier string, _ []string) int {
 	c := vlib.NewCtx("C06", tier, "exploration")
 	vlib.SetPortBlock(6)
-	c.SetRule("per case a fresh instance and a graph of one generator class (chain, wide, mirror, diamond, tombstoned edge in the middle, node under two parents one of which is deleted, deleted then undeleted, random history); then every node (incl. the root and one detached node that has points but no edge) is written once with an acknowledged node batch and every placement once with an edge batch (newer than what is stored); an up.> subscription on the writer's connection is drained at the reply barrier and compared with the model: {node} + ancestors through live edges (node points) / through any edges (edge points) + the root sentinel, payload equal to the points sent. In every third case a concurrent phase follows: an edge is deleted / undeleted 3-8 times while a second connection writes back to back to a node below it; at rest afterwards, writes below the edge must be announced exactly according to the final graph. distinct = (shape, node|edge, size of expected set, duplicates seen)")
+	c.SetRule("per case a fresh instance and a graph of one generator class (chain, wide, mirror, diamond, tombstoned edge in the middle, node under two parents one of which is deleted, deleted then undeleted, random history); then every node (incl. the root and one detached node that has points but no edge) is written once with an acknowledged node batch and every placement once with an edge batch (newer than what is stored); an up.> subscription on the writer's connection is drained at the reply barrier and compared with the model: {node} + ancestors through live edges (node points) / through any edges (edge points) + the root sentinel, payload equal to the points sent. In every second case 4-9 random legal graph operations follow (mirror, move, delete, undelete, create) and every node and placement is written and checked again. In every third case a concurrent phase follows: an edge is deleted / undeleted 3-8 times while a second connection writes back to back to a node below it; at rest afterwards, writes below the edge must be announced exactly according to the final graph. distinct = (shape, node|edge, size of expected set, duplicates seen)")
 	c.Assume("the store publishes rebroadcasts before the reply on one connection and NATS keeps per-publisher order to a subscriber connection (barrier, DESIGN C05)")
 	nGraphs := c.N(160, 1600)
 	vlib.Parallel(nGraphs, 6, func(i int) {
@@ -264,6 +264,60 @@ func runC06(tier string, _ []string) int {
 			}
 			c.Distinct(fmt.Sprintf("%s edge want=%d dups=%v tomb=%v", shape, len(want), len(msgs) > len(want), pts[0].Type == data.PointTypeTombstone))
 			c.Count("rebroadcasts_observed", int64(len(msgs)))
+		}
+		// ---- the graph changes after it has been written to (mirrors, moves, deletions, undeletions,
+		// new nodes), then every node is written again: whatever the store remembers about ancestors
+		// from the first round must not survive the changes
+		if i%2 == 1 {
+			for q := 0; q < 4+r.Intn(6); q++ {
+				if _, err := d.randomLegalOp(); err != nil {
+					c.Violate("store:legal-write-refused", err.Error(), wit(nil))
+					return
+				}
+			}
+			tap.Drain()
+			for _, n := range append([]string{in.RootID}, d.Made...) {
+				pts := data.Points{{Type: "again", Time: d.now(), Value: float64(r.Intn(100)), Origin: "user-y"}}
+				e, err := d.sendNode(n, pts)
+				c.Eval(1)
+				if err != nil || e != "" {
+					c.Violate("store:legal-write-refused", fmt.Sprintf("node write: %v %s", err, e), wit(nil))
+					return
+				}
+				msgs := tap.Drain()
+				want := d.g.Ancestors(n, false)
+				want[n] = true
+				if sig, what := checkRebroadcast(msgs, n, "", false, want, pts); sig != "" {
+					var subs []string
+					for _, m := range msgs {
+						subs = append(subs, m.Subject)
+					}
+					c.Violate(sig+":after-graph-changes", what, wit(map[string]any{"written": n, "subjects": subs}))
+					return
+				}
+				c.Count("rewrites_checked_after_graph_changes", 1)
+			}
+			for _, k := range d.g.EdgeKeys() {
+				parent, n := k[0], k[1]
+				if n == in.RootID {
+					continue
+				}
+				pts := data.Points{{Type: "sortOrder", Key: "again", Time: d.now(), Value: float64(r.Intn(5)), Origin: "user-y"}}
+				e, err := d.sendEdge(n, parent, pts)
+				c.Eval(1)
+				if err != nil || e != "" {
+					c.Violate("store:legal-write-refused", fmt.Sprintf("edge write: %v %s", err, e), wit(nil))
+					return
+				}
+				msgs := tap.Drain()
+				want := d.g.Ancestors(n, true)
+				want[n] = true
+				if sig, what := checkRebroadcast(msgs, n, parent, true, want, pts); sig != "" {
+					c.Violate(sig+":after-graph-changes", what, wit(map[string]any{"written": n, "parent": parent}))
+					return
+				}
+				c.Count("rewrites_checked_after_graph_changes", 1)
+			}
 		}
 		// ---- concurrent phase: the ancestor set of a node changes (edge deleted / undeleted / mirrored)
 		// while another connection writes to a node below it back to back; afterwards, at rest, a
